@@ -271,49 +271,49 @@ func c17(c *an.Ctx) {
 func reopenKeepsSnapshotIndex(c *an.Ctx, id string) {
 	const RL = "lib/raftlog"
 	const RC = "lib/raftconn"
-		r := c.Rule(id, "K-PROVENANCE(siblings)", "reopen keeps the snapshot index in the log: Init deletes below FirstIndexWithSnap()-1, replay reads from the snapshot index")
-		if f := fn(r, RL+":Init"); f != nil {
-			db := f.Find(call(r, RL+":entryLog.deleteBefore"))
-			r.AddSites(db.Len())
-			if db.Len() != 1 && !r.Failed() {
-				r.Fail(f.Name+": prefix deletion", c.P.Pos(f.Body.Pos()), "expected one deleteBefore in Init, found %d", db.Len())
-			}
-			for _, s := range db.List {
-				arg := f.Canon(s.Node.(*ast.CallExpr).Args[0])
-				if !regexp.MustCompile(`^\(.*\.FirstIndexWithSnap\(\)#0-1\)$|\.snapshot\(\)#0\.Metadata\.Index$`).MatchString(arg) {
-					r.Fail(f.Name+": prefix deletion index", c.P.Pos(s.Node.Pos()), "Init deletes log files below %s; it must keep the snapshot index (FirstIndexWithSnap()-1), because replay reads the entries from the snapshot index inclusive", arg)
-				}
+	r := c.Rule(id, "K-PROVENANCE(siblings)", "reopen keeps the snapshot index in the log: Init deletes below FirstIndexWithSnap()-1, replay reads from the snapshot index")
+	if f := fn(r, RL+":Init"); f != nil {
+		db := f.Find(call(r, RL+":entryLog.deleteBefore"))
+		r.AddSites(db.Len())
+		if db.Len() != 1 && !r.Failed() {
+			r.Fail(f.Name+": prefix deletion", c.P.Pos(f.Body.Pos()), "expected one deleteBefore in Init, found %d", db.Len())
+		}
+		for _, s := range db.List {
+			arg := f.Canon(s.Node.(*ast.CallExpr).Args[0])
+			if !regexp.MustCompile(`^\(.*\.FirstIndexWithSnap\(\)#0-1\)$|\.snapshot\(\)#0\.Metadata\.Index$`).MatchString(arg) {
+				r.Fail(f.Name+": prefix deletion index", c.P.Pos(s.Node.Pos()), "Init deletes log files below %s; it must keep the snapshot index (FirstIndexWithSnap()-1), because replay reads the entries from the snapshot index inclusive", arg)
 			}
 		}
-		if f := fn(r, RL+":RaftDiskStorage.FirstIndexWithSnap"); f != nil {
-			f.BranchReturns(r, an.AtomLike(`^0<recv\.Uint\(raftlog\.SnapshotIndex\)$`, true), an.MReturn("(snapshot index + 1, nil)", func(f *an.Fn, rs *ast.ReturnStmt) bool {
-				return len(rs.Results) == 2 && f.Canon(rs.Results[0]) == "(1+recv.Uint(raftlog.SnapshotIndex))"
-			}), "snapshot present ⇒ first = snapshot index + 1")
-		}
-		if f := fn(r, RC+":RaftNode.replay"); f != nil {
-			en := f.Find(call(r, RL+":RaftDiskStorage.Entries"))
-			r.AddSites(en.Len())
-			for _, s := range en.List {
-				id, ok := ast.Unparen(s.Node.(*ast.CallExpr).Args[0]).(*ast.Ident)
-				if !ok {
-					r.Fail(f.Name+": replay range", c.P.Pos(s.Node.Pos()), "replay lower bound is not the snapshot-index variable")
-					continue
-				}
-				v := f.Info.Uses[id]
-				okSnap := false
-				for _, st := range f.Find(an.MStore("fromIndex", v, nil)).List {
-					if as, ok := st.Node.(*ast.AssignStmt); ok && len(as.Rhs) == 1 && f.Canon(as.Rhs[0]) == "p0.Metadata.Index" {
-						okSnap = true
-					}
-				}
-				if !okSnap {
-					r.Fail(f.Name+": replay range", c.P.Pos(s.Node.Pos()), "replay no longer starts at the snapshot index (sp.Metadata.Index)")
+	}
+	if f := fn(r, RL+":RaftDiskStorage.FirstIndexWithSnap"); f != nil {
+		f.BranchReturns(r, an.AtomLike(`^0<recv\.Uint\(raftlog\.SnapshotIndex\)$`, true), an.MReturn("(snapshot index + 1, nil)", func(f *an.Fn, rs *ast.ReturnStmt) bool {
+			return len(rs.Results) == 2 && f.Canon(rs.Results[0]) == "(1+recv.Uint(raftlog.SnapshotIndex))"
+		}), "snapshot present ⇒ first = snapshot index + 1")
+	}
+	if f := fn(r, RC+":RaftNode.replay"); f != nil {
+		en := f.Find(call(r, RL+":RaftDiskStorage.Entries"))
+		r.AddSites(en.Len())
+		for _, s := range en.List {
+			id, ok := ast.Unparen(s.Node.(*ast.CallExpr).Args[0]).(*ast.Ident)
+			if !ok {
+				r.Fail(f.Name+": replay range", c.P.Pos(s.Node.Pos()), "replay lower bound is not the snapshot-index variable")
+				continue
+			}
+			v := f.Info.Uses[id]
+			okSnap := false
+			for _, st := range f.Find(an.MStore("fromIndex", v, nil)).List {
+				if as, ok := st.Node.(*ast.AssignStmt); ok && len(as.Rhs) == 1 && f.Canon(as.Rhs[0]) == "p0.Metadata.Index" {
+					okSnap = true
 				}
 			}
-			if en.Len() == 0 && !r.Failed() {
-				r.Fail(f.Name+": replay", c.P.Pos(f.Body.Pos()), "replay no longer reads the entries from the store")
+			if !okSnap {
+				r.Fail(f.Name+": replay range", c.P.Pos(s.Node.Pos()), "replay no longer starts at the snapshot index (sp.Metadata.Index)")
 			}
 		}
+		if en.Len() == 0 && !r.Failed() {
+			r.Fail(f.Name+": replay", c.P.Pos(f.Body.Pos()), "replay no longer reads the entries from the store")
+		}
+	}
 }
 
 func objName(o types.Object) string {
